@@ -425,18 +425,41 @@ Definition xmp_metadata (dec : decoder) := read_chunk dec KXMP (d_memory_limit d
 Record frame_header := {
   fh_anmf_size : Z; fh_x : Z; fh_y : Z; fh_width : Z; fh_height : Z; fh_duration : Z;
   fh_use_alpha_blending : bool; fh_dispose : bool;
-  fh_chunk : chunk_kind; fh_chunk_size : Z; fh_chunk_size_rounded : Z
+  fh_chunk : chunk_kind; fh_chunk_size : Z; fh_chunk_size_rounded : Z;
+  fh_next_frame_start : Z       (* animation.next_frame_start as the loop over skipped chunks left it *)
 }.
 
 Definition mul_u32 (a b : Z) : res Z := if a * b <=? u32_max then Ok (a * b) else Panic POverflow.
 
+(* `let anmf_size = loop { match read_chunk_header(&mut self.r)? { (ANMF, size, _) if size >= 32 => break size,
+       (ANMF, _, _) => return Err(ChunkHeaderInvalid of b"ANMF"),
+       (_, _, size_rounded) => { self.r.seek_relative(size_rounded as i64)?;
+                                 self.animation.next_frame_start += size_rounded + 8; } } }`
+   Chunks that sit between two ANMF chunks are stepped over: one read_chunk_header (two read_exact) and one
+   seek_relative per skipped chunk.  Returns (anmf_size, next_frame_start).  Every iteration reads 8 more bytes of the
+   file from a strictly larger position or ends in an error, so a fuel of S (length data) is never exhausted. *)
+Fixpoint skip_to_anmf (fuel : nat) (next_frame_start : Z) : M (Z * Z) :=
+  match fuel with
+  | O => fun s => (IOutOfFuel, s)
+  | S fuel' =>
+      let! '(k, size, size_rounded) := read_chunk_header in
+      if kind_eqb k KANMF then
+        if 32 <=? size then ret (size, next_frame_start) else fail (XDec EChunkHeaderInvalid)
+      else
+        let! _ := seek_relative size_rounded in
+        let! t := lift (add_u64 size_rounded 8) in
+        let! nfs := lift (add_u64 next_frame_start t) in
+        skip_to_anmf fuel' nfs
+  end.
+
 (* read_frame from `self.r.seek(Start(next_frame_start))` up to the `match chunk` that selects the payload decoder.
-   [width], [height] = canvas size (self.width / self.height). *)
+   [width], [height] = canvas size (self.width / self.height).  The update of next_frame_start made by the skipping
+   loop is a side effect on the decoder in Rust (it also survives a later error of the same call); here it is
+   returned in the header record. *)
 Definition read_frame_header (width height next_frame_start : Z) : M frame_header :=
   let! _ := seek_start next_frame_start in
-  let! '(k, size, _) := read_chunk_header in
-  if negb (kind_eqb k KANMF && (32 <=? size)) then fail (XDec EChunkHeaderInvalid) else
-  let anmf_size := size in
+  let! d := get_data in
+  let! '(anmf_size, next_frame_start) := skip_to_anmf (S (length d)) next_frame_start in
   let! x := read_3_bytes in
   let! frame_x := lift (mul_u32 x 2) in
   let! y := read_3_bytes in
@@ -460,7 +483,7 @@ Definition read_frame_header (width height next_frame_start : Z) : M frame_heade
   ret {| fh_anmf_size := anmf_size; fh_x := frame_x; fh_y := frame_y; fh_width := frame_width;
          fh_height := frame_height; fh_duration := duration; fh_use_alpha_blending := use_alpha_blending;
          fh_dispose := dispose; fh_chunk := chunk; fh_chunk_size := chunk_size;
-         fh_chunk_size_rounded := chunk_size_rounded |}.
+         fh_chunk_size_rounded := chunk_size_rounded; fh_next_frame_start := next_frame_start |}.
 
 (* ---------------------------------------------------------------------------------------------- *)
 (* schedules of the correspondence harness, flat entry point of the oracle                          *)
@@ -495,5 +518,29 @@ Definition cio_frame_eval (sched : Z -> Z) (fail_at : option Z) (d : list Z) :=
   | IOk dec =>
       let '(rf, s2) := read_frame_header (d_width dec) (d_height dec) (d_next_frame_start dec) s1 in
       (r_calls s1, Some (rf, r_calls s2))
+  | _ => (r_calls s1, None)
+  end.
+
+(* read_frame's header part for successive frames.  The payload decoder is not modelled, so the value of the call
+   counter at the start of each read_frame is an input ([starts], what the implementation's reader showed); the
+   position does not matter (absolute seek first).  After a good header the next frame starts at
+   next_frame_start + anmf_size + 8 (`self.animation.next_frame_start += anmf_size + 8`, reached only when the
+   payload was decoded); the list stops at the first header that is not Ok. *)
+Fixpoint frames_loop (w h nfs : Z) (starts : list Z) (s : rstate) : list (ires frame_header * Z) :=
+  match starts with
+  | [] => []
+  | c :: rest =>
+      let '(rf, s') := read_frame_header w h nfs (set_pos_calls s (r_pos s) c) in
+      (rf, r_calls s') ::
+        match rf with
+        | IOk fh => frames_loop w h (fh_next_frame_start fh + fh_anmf_size fh + 8) rest s'
+        | _ => []
+        end
+  end.
+
+Definition cio_frames_eval (sched : Z -> Z) (fail_at : option Z) (d : list Z) (starts : list Z) :=
+  let '(r, s1) := new (init sched fail_at d) in
+  match r with
+  | IOk dec => (r_calls s1, Some (frames_loop (d_width dec) (d_height dec) (d_next_frame_start dec) starts s1))
   | _ => (r_calls s1, None)
   end.
